@@ -79,6 +79,7 @@ const MAX_HANDLES_PER_STREAM: u32 = 3;
 
 impl St {
     pub fn new(cfg: SeqCfg, id_base: u64) -> St {
+        hang::set_cfg(&cfg);
         let (tx, rx) = api::create(cfg.fl, cfg.fut, cfg.cap, cfg.wait, cfg.fut_spins);
         let model = Model::new(cfg.cap, rx.stream);
         let mut sig = Hasher64::new();
@@ -164,6 +165,8 @@ impl St {
     pub fn exec(&mut self, c: Cmd) {
         self.ops += 1;
         self.sig.add(cmd_code(c));
+        hang::CUR_CMD.store(cmd_code(c), std::sync::atomic::Ordering::Relaxed);
+        hang::OPS_CLOCK.fetch_add(1, std::sync::atomic::Ordering::Relaxed);
         match c {
             Cmd::Send(i, sink) => {
                 let id = self.next_id;
@@ -365,6 +368,8 @@ impl St {
         let mut txs: Vec<Option<TxH>> = self.txs.drain(..).map(Some).collect();
         let mut rxs: Vec<Option<RxH>> = self.rxs.drain(..).map(Some).collect();
         for &i in order {
+            hang::CUR_CMD.store(0xF00 + i as u64, std::sync::atomic::Ordering::Relaxed);
+            hang::OPS_CLOCK.fetch_add(1, std::sync::atomic::Ordering::Relaxed);
             if i < ntx {
                 if let Some(t) = txs[i].take() {
                     t.drop_tx(false);
@@ -852,4 +857,171 @@ pub fn run_exhaustive(p: &SeqParams, shard: &mut Shard) {
     shard.stat("exhaustive_complete", complete as u64);
     shard.stat("exhaustive_depth", depth as u64);
     hooks::thread_end();
+}
+
+/// A call that never comes back, in a program with one thread.
+///
+/// Every handle of the queue under test is owned by the calling thread, so nothing can ever wake or
+/// release it: if the thread sits asleep in the kernel with no CPU progress, or burns CPU without
+/// finishing one call, for two seconds' worth of samples, the call will never return. That is decided
+/// by a guard thread from the scheduler state and the thread's CPU clock (not from wall-clock time
+/// alone: a thread that is merely descheduled is in state R and gains no CPU time, and is left alone).
+/// The guard then writes the shard result itself and ends the process, because the stuck thread
+/// cannot be joined.
+pub mod hang {
+    use super::SeqCfg;
+    use crate::out::J;
+    use crate::payload::Violation;
+    use crate::report::Shard;
+    use std::sync::atomic::Ordering::{Relaxed, SeqCst};
+    use std::sync::atomic::{AtomicBool, AtomicU64};
+    use std::sync::Mutex;
+    use std::time::Duration;
+
+    pub static OPS_CLOCK: AtomicU64 = AtomicU64::new(0);
+    pub static CUR_CMD: AtomicU64 = AtomicU64::new(0);
+    static CUR_CFG: Mutex<(String, bool)> = Mutex::new((String::new(), false));
+    static STOP: AtomicBool = AtomicBool::new(false);
+
+    pub fn set_cfg(c: &SeqCfg) {
+        if cfg!(miri) {
+            return;
+        }
+        let mut g = CUR_CFG.lock().unwrap();
+        g.0.clear();
+        g.0.push_str(&c.describe());
+        g.1 = c.fut;
+    }
+
+    fn cmd_name(code: u64) -> String {
+        let (k, a) = (code >> 8, code & 0xff);
+        match k {
+            1 => format!("{}(handle {})", if a & 1 == 1 { "start_send" } else { "try_send" }, a >> 1),
+            2 => format!("receive(handle {}, entry point {})", a >> 4, a & 15),
+            3 => format!("clone sender {}", a),
+            4 => format!("drop sender {}", a >> 1),
+            5 => format!("clone receiver {}", a),
+            6 => format!("add_stream({})", a),
+            7 => format!("into_single({})", a),
+            8 => format!("into_multi({})", a),
+            9 => format!("transform_operation({})", a),
+            10 => format!("iterator-adapter(handle {})", a >> 1),
+            11 => format!("unsubscribe({})", a),
+            15 => format!("teardown: drop handle {}", a),
+            _ => format!("command {:#x}", code),
+        }
+    }
+
+    /// kind used in the signature: stable across handle indices
+    fn cmd_kind(code: u64) -> &'static str {
+        match code >> 8 {
+            1 => "send",
+            2 => "receive",
+            3 | 5 => "clone",
+            4 | 15 => "drop",
+            6 => "add_stream",
+            7 | 8 | 9 => "convert",
+            10 => "iterator",
+            11 => "unsubscribe",
+            _ => "other",
+        }
+    }
+
+    pub struct Guard(Option<std::thread::JoinHandle<()>>);
+
+    impl Drop for Guard {
+        fn drop(&mut self) {
+            STOP.store(true, SeqCst);
+            if let Some(j) = self.0.take() {
+                let _ = j.join();
+            }
+            STOP.store(false, SeqCst);
+        }
+    }
+
+    pub fn start(out: Option<String>, seed: u64) -> Guard {
+        if cfg!(miri) {
+            return Guard(None);
+        }
+        let ktid = unsafe { libc::syscall(libc::SYS_gettid) } as u64;
+        let pt = unsafe { libc::pthread_self() };
+        let j = std::thread::spawn(move || {
+            const SAMPLES: u32 = 40;
+            let mut last = OPS_CLOCK.load(Relaxed);
+            let mut same = 0u32;
+            let mut asleep = 0u32;
+            let mut cpu0 = crate::solo::thread_cpu_ns(pt).unwrap_or(0);
+            loop {
+                std::thread::sleep(Duration::from_millis(50));
+                if STOP.load(SeqCst) {
+                    return;
+                }
+                let now = OPS_CLOCK.load(Relaxed);
+                if now != last {
+                    last = now;
+                    same = 0;
+                    asleep = 0;
+                    cpu0 = crate::solo::thread_cpu_ns(pt).unwrap_or(0);
+                    continue;
+                }
+                same += 1;
+                if crate::solo::solo_state(ktid) == Some('S') {
+                    asleep += 1;
+                }
+                if same < SAMPLES {
+                    continue;
+                }
+                let cpu = crate::solo::thread_cpu_ns(pt).unwrap_or(0).saturating_sub(cpu0);
+                let how = if asleep == same && cpu < 10_000_000 {
+                    "blocks"
+                } else if cpu >= 1_800_000_000 {
+                    "spins"
+                } else {
+                    // descheduled or in between: no verdict, keep watching
+                    same = 0;
+                    asleep = 0;
+                    cpu0 = crate::solo::thread_cpu_ns(pt).unwrap_or(0);
+                    continue;
+                };
+                if OPS_CLOCK.load(Relaxed) != last {
+                    continue;
+                }
+                let code = CUR_CMD.load(Relaxed);
+                let (cfgd, fut) = CUR_CFG.lock().map(|g| g.clone()).unwrap_or_default();
+                let mut shard = Shard::new("mq-seq");
+                shard.rule = "single-threaded call that never returns".to_string();
+                shard.evaluations = now;
+                let v = Violation {
+                    prop: if fut { "C09,C15" } else { "C09" },
+                    rule: "seq-call-never-returns",
+                    sig: format!("seq-call-never-returns:{}:{}", how, cmd_kind(code)),
+                    detail: format!(
+                        "single-threaded program, every handle owned by the caller: {} did not return; the thread {} ({} ms CPU over {} samples of 50 ms, {} of them asleep in the kernel) and nothing exists that could release it ({})",
+                        cmd_name(code),
+                        if how == "blocks" { "is asleep in the kernel without CPU progress" } else { "burns CPU without finishing the call" },
+                        cpu / 1_000_000,
+                        same,
+                        asleep,
+                        cfgd
+                    ),
+                };
+                let replay = J::obj().set("engine", J::s("seq")).set("cfg", J::s(cfgd)).set("stuck_in", J::s(cmd_name(code))).set("seed", J::UInt(seed));
+                shard.add_violations(vec![v], &replay);
+                let mut j = shard.to_json();
+                j.put("seed_used", J::UInt(seed));
+                let s = j.to_string();
+                match &out {
+                    Some(p) => {
+                        let _ = std::fs::write(p, s);
+                    }
+                    None => {
+                        println!("SHARDJSON {}", s);
+                    }
+                }
+                println!("SHARD engine=mq-seq stuck call reported by the guard");
+                std::process::exit(0);
+            }
+        });
+        Guard(Some(j))
+    }
 }
